@@ -3,10 +3,12 @@
 /verif/refactors/r<g>-<n>/ after re-running the pinned suite with the patch."""
 import os, re, shutil, subprocess, sys, json
 g = sys.argv[1]
-wt = "/tmp/refac/r%s" % g
+base = os.environ.get("REFAC_BASE", "/tmp/refac")
+prefix = os.environ.get("REFAC_PREFIX", "r")  # wave 2 is stored as q<g>-<n>
+wt = "%s/r%s" % (base, g)
 def sh(c, cwd):
     p = subprocess.run(c, shell=True, cwd=cwd, capture_output=True, text=True); return p.returncode, p.stdout + p.stderr
-for n in sorted(os.listdir(wt + "/refac_out")):
+for n in sorted(x for x in os.listdir(wt + "/refac_out") if x.isdigit()):
     d = "%s/refac_out/%s" % (wt, n)
     if not os.path.exists(d + "/patch.diff"): continue
     sh("git checkout -- .", wt)
@@ -17,9 +19,9 @@ for n in sorted(os.listdir(wt + "/refac_out")):
         m = re.search(r"(\d+) passed", out); f = re.search(r"(\d+) failed", out)
         ok = bool(m) and int(m.group(1)) == 143 and not f
     sh("git checkout -- .", wt)
-    print("r%s-%s apply=%s suite_ok=%s" % (g, n, rc, ok))
+    print("%s%s-%s apply=%s suite_ok=%s" % (prefix, g, n, rc, ok))
     if ok:
-        dst = "/verif/refactors/r%s-%s" % (g, n)
+        dst = "/verif/refactors/%s%s-%s" % (prefix, g, n)
         os.makedirs(dst, exist_ok=True)
         shutil.copy(d + "/patch.diff", dst)
         if os.path.exists(d + "/README.md"): shutil.copy(d + "/README.md", dst)
